@@ -13,7 +13,11 @@ ID = "C06"
 PROPS_FILES = ["Gama/Props/C06.lean"]
 LEAN_TARGETS = ["Gama.Props.C06"]
 DRIVERS = ["drv_cogo"]
-RULE = ("(a) primitive calls: random base points / true point X in a 1 km square, exact observations derived from X "
+RULE = ("(a') single strategy steps: small in-memory networks (2..7 points; numeric and non-numeric ids in both orders; points "
+        "that are 2D, 3D, height-only or undefined; all 8 axes-xy x 2 angle senses; unequal non-zero from_dh/to_dh; exact (80 %) "
+        "or perturbed observations) on which ONE execute() of AcordAzimuth / AcordHdiff / AcordVector / AcordZderived "
+        "(+ get_medians_z) is run once or twice; distinct by op line, non-trivial = at least one coordinate defined afterwards; "
+        "(a) primitive calls: random base points / true point X in a 1 km square, exact observations derived from X "
         "(70 %) or random inconsistent data (30 %), small-angle limits 0.15 / 0.1; distinct by op line, non-trivial = "
         "at least one solution returned; (b) single adjustment step on generated networks (refine_approx_coordinates "
         "and every observation's stopping-test misclosure); (c) end-to-end: constructive 1D/2D/3D networks "
@@ -29,9 +33,18 @@ LEVEL_TEXT = ("partial: Lean 4 theorems over R about executable models of the ap
               "every orientation in [0,2pi), including the +-pi wrap seam, as repaired by 01e764d), of one "
               "refine_approx_coordinates step (exact units, exactly the free coordinates) and of the fixed point (zero "
               "absolute term for all 13 observation types of the linearisation GENERATED from local_linearization.cpp, "
-              "x = 0 solves the normal equations, the stopping test passes). NOT proved: convergence of the iterated "
-              "linearisation from perturbed / omitted approximate coordinates and the completeness and scheduling of the "
-              "Acord2 strategies; these are covered by the end-to-end search on gama-local only.")
+              "x = 0 solves the normal equations, the stopping test passes), and of single steps of the Acord2 strategies "
+              "AcordAzimuth (prepare + execute, both id orders), AcordHdiff, AcordVector (chaining loops, both directions, "
+              "copy-back), AcordZderived (station from targets and targets from station; horizontal, slope and coordinate "
+              "distances; instrument/target heights) with Acord2::get_medians_z: exact observations and a point list whose "
+              "defined coordinates are true give a point list whose defined coordinates are true, for every xNorthAngle "
+              "(all axes orientations / angle senses) and every interleaving of these steps; no step clears a flag or "
+              "enlarges a missing set, AcordAzimuth / AcordZderived never change a defined coordinate. Two places where "
+              "exact data are NOT reproduced are proved as defects and replayed (azimuth 0 with reverse azimuth 200 gon; "
+              "second-face zenith angles in AcordZderived). NOT proved: convergence of the iterated linearisation from "
+              "perturbed / omitted approximate coordinates, the strategies AcordPolar::execute, AcordTraverse, "
+              "AcordIntersection, AcordWeakChecks, Acord2::get_medians (xy) and the completeness of the whole; these are "
+              "covered by the end-to-end search on gama-local only.")
 LEVEL_NOTE = ("Theorems are about exact real arithmetic; libm and rounding are not modelled. The end-to-end statement "
               "(adjusted = true, zero residuals, nothing removed, for every algorithm) is explored, not proved; "
               "tolerances used by the oracle: 1e-6 m when exact approximate coordinates are supplied, 1e-5 m otherwise "
@@ -40,14 +53,22 @@ LEVEL_NOTE = ("Theorems are about exact real arithmetic; libm and rounding are n
               "perturbation so that the documented gross-error gate is not what is being tested.")
 TECHNIQUE = ("Lean 4 proof (closed-form geometry over R, list induction) + differential correspondence at Float "
              "+ end-to-end property search on gama-local with shrinking")
-TRUSTED = ["harness/c06_cogo.cpp re-declares access (#define private public) for acord2.h / acordpolar.h only",
+TRUSTED = ["harness/c06_cogo.cpp re-declares access (#define private public) for acord2.h / acordpolar.h / acordazimuth.h / "
+           "acordhdiff.h / acordvector.h / acordzderived.h only",
+           "tools/gen/c06_acord.py (true coordinates -> exact observations of the single-step networks)",
            "tools/gen/c06_nets.py (true coordinates -> exact observations) and the regex reader of the result XML",
            "expat (the `net` stream parses generated .gkf files through GKFparser)"]
 MODELLED = ["libm sin/cos/atan2/acos/sqrt (Float primitives of the Lean runtime vs glibc)",
             "std::sort (insertion sort in the model)", "std::map / std::multimap iteration order inside Acord2",
-            "the round robin of Acord2::execute and ApproximateCoordinates (not modelled at all; searched)",
+            "the round robin of Acord2::execute, AcordPolar::execute, AcordTraverse, AcordIntersection, AcordWeakChecks, "
+            "get_medians (xy) and ApproximateCoordinates (not modelled; searched end to end)",
+            "PointID::operator< (C07's model Gama/Model/PointId.lean, used by the acord driver)",
+            "PointData::xNorthAngle (C05's hand-written model Lin.xNorthAngle, used by the acord driver)",
             "least-squares solve between two refine steps (C01)"]
 ASSUMPTIONS = ["bearing and direction values lie in [0, 2pi) (one pass of the unbounded wrap loops suffices)",
+               "AcordVector::prepare: every Vectors cluster fills all three buffer slots before the first complete triple "
+               "(the buffer is indeterminate in the C++ until then)",
+               "AcordHdiff / AcordVector chaining loops: fuel 2*(points+2) passes (every successful pass defines a point)",
                "Acord2::median is only called on non-empty vectors"]
 
 SRC = """e3 ellipsoid ellipsoids gon2deg latlong outstream comb simplified statan utf8 version adj/adj adj/adj_input_data
@@ -239,8 +260,8 @@ def check(net, rc, xml, txt, log, variant, heights):
     tol = tolerances(variant, heights)
     # with from_dh/to_dh the program keeps a zenith-angle reduction until it is stale by more than
     # angular_tol = 0.1 cc = 1e-5 gon (test_linearization_visitor.cpp); with target heights of several metres the
-    # staleness reaches that limit, and the iteration's own stopping tolerance comes on top: 2e-5 gon
-    bad = N.check_result(net, rc, xml, txt, log, tol_xyz=tol["tol_xyz"], tol_ang=max(tol["tol_ang"], 2e-5 if heights else 0),
+    # staleness reaches that limit on both ends of the iteration (observed: up to 2.0e-5 gon): 5e-5 gon = 0.5 cc
+    bad = N.check_result(net, rc, xml, txt, log, tol_xyz=tol["tol_xyz"], tol_ang=max(tol["tol_ang"], 5e-5 if heights else 0),
                          tol_lin=max(tol["tol_lin"], 1e-4 if heights else 0))
     if bad and variant != "supplied":
         # weakly determined coordinates (reported std.dev > 20 mm for sigma_obs 5 mm / 10 cc): the program stops at
